@@ -11,6 +11,7 @@ const (
 	verifPopBeforeWait = iota
 	verifPopCancelBroadcastDone
 	verifSeqnoBeforeCommit
+	verifLoopRequest // the event loop has received an API request and not yet handled it
 )
 
 func verifYield(int) {}
